@@ -49,6 +49,8 @@ pub struct Zone {
     pub what: String,
     path: PathBuf,
     now_ts: i64,
+    /// (transition instant, offset before, offset after) of the zone's own table from 1975 on (real zones only)
+    pub jumps: Vec<(i64, i32, i32)>,
 }
 
 /// Offsets for the synthetic fixed zones, and real zones with daylight saving (the pinned "now" is in summer or in
@@ -61,8 +63,28 @@ pub fn gen_zone(rng: &mut Rng) -> Zone {
             ZONE_FILE_MISSING.fetch_add(1, std::sync::atomic::Ordering::Relaxed);
         }
         if p.exists() {
-            let now_ts = *rng.pick(&[1_720_000_000i64, 1_705_000_000, 1_711_846_800 - 1, 1_711_846_800, 1_729_990_800, 946_684_800]);
-            return Zone { what: format!("{}/{} with the clock at unix {}", sub, name, now_ts), path: p, now_ts };
+            let mut jumps = vec![];
+            if let Ok(bytes) = std::fs::read(&p) {
+                if let Ok(r) = crate::model::tzif_ref::parse(&bytes) {
+                    for k in 1..r.transitions.len() {
+                        let t = r.transitions[k];
+                        if t > 157_766_400 {
+                            let (b, a) = (r.types[r.type_idx[k - 1] as usize].0, r.types[r.type_idx[k] as usize].0);
+                            if a != b {
+                                jumps.push((t, b, a));
+                            }
+                        }
+                    }
+                }
+            }
+            // the clock: a few fixed instants, or — half of the time — on the day of one of the zone's own transitions
+            let now_ts = if !jumps.is_empty() && rng.chance(1, 2) {
+                let (t, _, _) = *rng.pick(&jumps);
+                t + *rng.pick(&[-1i64, 0, 1, 3_600, -3_600, 43_200, -43_200, 7_200, -7_200, 600])
+            } else {
+                *rng.pick(&[1_720_000_000i64, 1_705_000_000, 1_711_846_800 - 1, 1_711_846_800, 1_729_990_800, 946_684_800])
+            };
+            return Zone { what: format!("{}/{} with the clock at unix {}", sub, name, now_ts), path: p, now_ts, jumps };
         }
     }
     let off = match rng.below(5) {
@@ -72,7 +94,7 @@ pub fn gen_zone(rng: &mut Rng) -> Zone {
         3 => rng.range_i64(-95, 95) as i32 * 900,
         _ => *rng.pick(&[3723i32, -3723, 30, -30, 12_345, -54_321, 5_400, -1_800]),
     };
-    Zone { what: format!("synthetic zone with the fixed offset {} s", off), path: fixed_zone_file(off), now_ts: 1_700_000_000 }
+    Zone { what: format!("synthetic zone with the fixed offset {} s", off), path: fixed_zone_file(off), now_ts: 1_700_000_000, jumps: vec![] }
 }
 
 /// Runs `f` with the thread's system zone redirected to `z` and the clock pinned; `f` gets the offset the crate
@@ -112,11 +134,45 @@ pub fn twin_case(rec: &mut Rec, rng: &mut Rng, prop: &'static str, family: Famil
     if !(MIN_INSTANT + 400 * D..MAX_INSTANT - 400 * D).contains(&i) {
         i = i.clamp(MIN_INSTANT + 400 * D, MAX_INSTANT - 400 * D);
     }
+    // real zones: half of the time the value sits within a few hours of one of the zone's own transitions, or on the
+    // same wall-clock time some days / months away from it (so that a date setter can land on the transition day) —
+    // where an implementation that consults the zone at the VALUE's instant or wall time, instead of now, differs
+    let mut directed: Option<(usize, i64)> = None;
+    if !z.jumps.is_empty() && rng.chance(1, 2) {
+        let (t, b, a) = *rng.pick(&z.jumps);
+        let wall = t + b.min(a) as i64 + rng.range_i64(0, (a - b).unsigned_abs() as i64 + 3_600) - 1_800;
+        // the instant whose reading under the CURRENT offset is that wall time is not known before the zone is
+        // entered; use the unix instant of the wall time minus the larger of the two offsets as an approximation
+        let base = (wall - a.max(b) as i64 + crate::model::calendar::DAYS_TO_1970 * 86_400) as i128 * NS + rng.range_i128(0, NS - 1);
+        let k = match rng.below(4) {
+            0 => 0,
+            1 => rng.range_i64(-27, 27),
+            2 => *rng.pick(&[-365i64, 365, -366, 366, 30, -30, 31, -31, 61, -61]),
+            _ => rng.range_i64(-400, 400),
+        };
+        i = base + k as i128 * D;
+        if family == Family::SetClear && k != 0 {
+            // a date setter that brings the value to the transition day: set_day / set_month / set_year / set_day_of_year
+            let target = fields(base + a.max(b) as i128 * NS);
+            let which = rng.below(4) as usize;
+            let v = match which { 0 => target.year, 1 => target.month as i64, 2 => target.dom as i64, _ => crate::model::calendar::day_of_year(target.day) as i64 };
+            directed = Some((which, v));
+        }
+        rec.bin("local-twin/value-near-a-transition-of-the-zone");
+    }
     let r = trap(|| {
         in_zone(&z, |o| {
             // a step of the wanted family, generated for the Fixed twin (i, o)
             let mut step = None;
+            if let Some((f, v)) = directed {
+                let desc = format!("{}({})", super::c09::DT_SETTERS[f], v);
+                let fb: Box<dyn Fn(&DateTime) -> Option<DateTime>> = Box::new(move |x| super::c09::apply_dt_setter(x, f, v).ok());
+                step = Some((desc, fb));
+            }
             for _ in 0..40 {
+                if step.is_some() {
+                    break;
+                }
                 let Step::Op(desc, fam, _, f) = gen_step(rng, i, o);
                 if fam == family {
                     step = Some((desc, f));
@@ -152,6 +208,57 @@ pub fn twin_case(rec: &mut Rec, rng: &mut Rng, prop: &'static str, family: Famil
             }
             if rec.want_sample() {
                 rec.sample(|| json!({"zone": z.what, "resolves_to": o, "instant": show(i), "operation": desc, "both twins": ra}));
+            }
+        }
+    }
+}
+
+/// Twin case for `Time` values: setters, clears, add_/sub_ and the read-outs of a Time carrying Offset::Local against
+/// the Time carrying Offset::Fixed(o) (C08 arithmetic, C09 setters/clears).
+pub fn twin_time_case(rec: &mut Rec, rng: &mut Rng, prop: &'static str, setters: bool) {
+    use astrolabe::Time;
+    rec.eval();
+    let z = gen_zone(rng);
+    let n: u64 = match rng.below(4) {
+        0 => *rng.pick(&[0u64, 1, 86_399_999_999_999, 43_200_000_000_000, 3_600_000_000_000, 82_800_000_000_000, 7_200_000_000_000]),
+        1 => rng.below(86_400) * 1_000_000_000,
+        _ => rng.below(86_400_000_000_000),
+    };
+    let tsum = |t: &Time| format!("as_nanos={} off={} hms={:?} local=({},{},{},{},{},{}) fmt={}", t.as_nanos(), t.get_offset().resolve(), t.as_hms(), t.hour(), t.minute(), t.second(), t.milli(), t.micro(), t.nano(), t.format("HH:mm:ss.nnnnn xxxxx a"));
+    let (desc, op): (String, Box<dyn Fn(&Time) -> Option<Time>>) = if setters {
+        let f = rng.below(12) as usize;
+        if f < 6 {
+            let v: u32 = match f { 0 => rng.below(25) as u32, 1 | 2 => rng.below(61) as u32, 3 => rng.below(1_001) as u32, 4 => rng.below(1_000_001) as u32, _ => rng.below(1_000_000_001) as u32 };
+            (format!("Time::{}({})", super::c08::SETTERS[f], v), Box::new(move |t| super::c08::apply_time_setter(t, f, v).ok()))
+        } else {
+            (format!("Time::{}()", super::c08::CLEARS[f - 6]), Box::new(move |t| Some(super::c08::apply_time_clear(t, f - 6))))
+        }
+    } else {
+        let m = rng.below(12) as usize;
+        let c = match rng.below(3) { 0 => rng.below(100) as u32, 1 => rng.below(1 << 20) as u32, _ => rng.next() as u32 };
+        (format!("Time::{}({})", super::c08::TMETHODS[m].0, c), Box::new(move |t| Some(super::c08::apply_tmethod(t, m, c))))
+    };
+    let r = trap(|| {
+        in_zone(&z, |o| {
+            let a = Time::from_nanos(n).unwrap().set_offset(Offset::Fixed(o));
+            let b = Time::from_nanos(n).unwrap().set_offset(Offset::Local);
+            let before = (tsum(&a), tsum(&b));
+            let ra = outcome(trap(|| op(&a).map(|x| tsum(&x))), |v| v.clone().unwrap_or_else(|| "refused".into()));
+            let rb = outcome(trap(|| op(&b).map(|x| tsum(&x))), |v| v.clone().unwrap_or_else(|| "refused".into()));
+            (o, before, ra, rb)
+        })
+    });
+    rec.api("Offset::Local twin (Time)");
+    match r {
+        Err(p) => rec.violation(format!("{}|local-twin|setup|panic|{},{}", prop, p.class, p.site()), || json!({"zone": z.what, "time_as_nanos": n, "panic": p.to_json()})),
+        Ok((o, before, ra, rb)) => {
+            rec.bin("local-twin/time-judged");
+            rec.nontrivial(hash_str(&format!("{}{}{}", z.what, n, desc)));
+            let opname: String = desc.split('(').next().unwrap_or("").trim().to_string();
+            if before.0 != before.1 {
+                rec.violation(format!("{}|local-twin|Time read-outs|Offset::Local-value-reads-unlike-its-fixed-offset-twin", prop), || json!({"zone": z.what, "Offset::Local resolves to": o, "time_as_nanos": n, "Fixed twin": before.0, "Local twin": before.1}));
+            } else if ra != rb {
+                rec.violation(format!("{}|local-twin|{}|Offset::Local-value-behaves-unlike-its-fixed-offset-twin", prop, opname), || json!({"zone": z.what, "Offset::Local resolves to": o, "time_as_nanos": n, "operation": desc, "on the Time carrying Offset::Fixed": ra, "on the Time carrying Offset::Local": rb}));
             }
         }
     }
